@@ -79,10 +79,11 @@ structure Cfg where
   fixF31t3 : Bool  -- Type 3: unknown CommunicationError -> TagCommandError(RECEIVE_ERROR)
   fixF32 : Bool    -- Type 3: short answers -> RSP_LENGTH_ERROR
   fixSect : Bool   -- Type 2 sector select: non-timeout error is re-raised instead of `assert`
+  fixT4 : Bool     -- ISO-DEP: unknown CommunicationError -> TagCommandError(RECEIVE_ERROR)
   deriving DecidableEq, Repr
 
-def Cfg.repaired : Cfg := ⟨true, true, true, true⟩
-def Cfg.asFound : Cfg := ⟨false, false, false, false⟩
+def Cfg.repaired : Cfg := ⟨true, true, true, true, true⟩
+def Cfg.asFound : Cfg := ⟨false, false, false, false, false⟩
 
 inductive PrimKind | t12 | t3 | t4 | raw
   deriving DecidableEq, Repr
@@ -144,33 +145,45 @@ def loop (cfg : Cfg) (k : PrimKind) (idm : Bool) (c : Cmd) (a : Ans) :
                | .refuse e => (.error (.tagCmd e), w.push c (acc ++ [(att, false)]))
                | _ => (.ok (), w.push c (acc ++ [(att, false)]))
 
-/-- ISO-DEP exchange of one unchained command (tt4.py:88-168).  `i` counts the
-frames of this exchange from 1, `nak`: the next frame is R(NAK) instead of the
-I-block, `has`: the card has executed the command.  Recursion on `fuel`
-(`= budget + 3` suffices, see `dep_fuel`). -/
-def dep (budget : Nat) (c : Cmd) (a : Ans) :
+/-- end of an ISO-DEP exchange whose answer arrived -/
+def depDone (c : Cmd) (a : Ans) (w : World) (acc : List (Att × Bool)) : (Py Unit) × World :=
+  match a with
+  | .refuse e => (.error (.tagCmd e), w.push c acc)
+  | _ => (.ok (), w.push c acc)
+
+/-- the `except` clauses of the block loop for frame number `i`: `none` = send R(NAK) and go on -/
+def depFail (cfg : Cfg) (budget i : Nat) (f : Fault) : Option Exc :=
+  match f with
+  | .protocol => some (.tagCmd (-2))
+  | .timeout => if i ≤ budget then none else some (.tagCmd 0)
+  | .transmission => if i ≤ budget then none else some (.tagCmd (-1))
+  | f => some (if cfg.fixT4 then .tagCmd (-1) else f.exc)
+
+/-- ISO-DEP exchange of one unchained command (tt4.py `IsoDepInitiator.exchange`).  `i` counts
+the frames of this exchange from 1, `nak`: the next frame is R(NAK) instead of the I-block,
+`has`: the card has executed the command.  Recursion on `fuel`; `fuel = budget + 3` is never
+used up (`dep_spec`). -/
+def dep (cfg : Cfg) (budget : Nat) (c : Cmd) (a : Ans) :
     Nat → Nat → Bool → Bool → List (Att × Bool) → World → (Py Unit) × World
   | 0, _, _, _, acc, w => (.error .outOfFuel, w.push c acc)
   | fuel+1, i, nak, has, acc, w =>
-    let (att, w) := nextAtt w
-    let done (w : World) (acc) : (Py Unit) × World := match a with
-      | .refuse e => (.error (.tagCmd e), w.push c acc)
-      | _ => (.ok (), w.push c acc)
-    let fail (f : Fault) (has : Bool) (w : World) (acc) : (Py Unit) × World := match f with
-      | .protocol => (.error (.tagCmd (-2)), w.push c acc)
-      | .timeout => if i ≤ budget then dep budget c a fuel (i+1) true has acc w else (.error (.tagCmd 0), w.push c acc)
-      | .transmission => if i ≤ budget then dep budget c a fuel (i+1) true has acc w else (.error (.tagCmd (-1)), w.push c acc)
-      | f => (.error f.exc, w.push c acc)
-    match att with
-    | .flt f reached =>
+    match nextAtt w with
+    | (.flt f reached, w) =>
       let exec := reached && !nak && !has
-      fail f (has || exec) (if exec then w.exec c a else w) (acc ++ [(att, false)])
-    | _ =>
-      if a = .mute then fail .timeout has w (acc ++ [(att, true)])
+      let w := if exec then w.exec c a else w
+      let acc := acc ++ [(.flt f reached, false)]
+      match depFail cfg budget i f with
+      | some e => (.error e, w.push c acc)
+      | none => dep cfg budget c a fuel (i+1) true (has || exec) acc w
+    | (att, w) =>
+      if a = .mute then
+        match depFail cfg budget i .timeout with
+        | some e => (.error e, w.push c (acc ++ [(att, true)]))
+        | none => dep cfg budget c a fuel (i+1) true has (acc ++ [(att, true)]) w
       else if nak then
-        if has then done w (acc ++ [(att, false)])
-        else dep budget c a fuel (i+1) false has (acc ++ [(att, false)]) w
-      else done (w.exec c a) (acc ++ [(att, false)])
+        if has then depDone c a w (acc ++ [(att, false)])
+        else dep cfg budget c a fuel (i+1) false has (acc ++ [(att, false)]) w
+      else depDone c a (w.exec c a) (acc ++ [(att, false)])
 
 /-- a bare `clf.exchange` (no retry, the CommunicationError is raised as it is) -/
 def rawx (c : Cmd) (a : Ans) (w : World) : (Py Unit) × World :=
@@ -192,7 +205,7 @@ def prim (cfg : Cfg) (p : Prim) (c : Cmd) (a : Ans) (w : World) : (Py Unit) × W
   match p.kind with
   | .t12 => loop cfg .t12 p.idm c a p.budget none [] w
   | .t3 => loop cfg .t3 p.idm c a p.budget none [] w
-  | .t4 => dep p.budget c a (p.budget + 3) 1 false false [] w
+  | .t4 => dep cfg p.budget c a (p.budget + 3) 1 false false [] w
   | .raw => rawx c a w
 
 /-! ## command programs -/
